@@ -791,7 +791,7 @@ func c03Directed(c *harness.Ctx) {
 			}
 		}
 		// DNS-gated
-		for _, caller := range [][]byte{u.DNS, s.A, s.KSame, s.Other} {
+		for _, caller := range [][]byte{u.DNS, s.A, s.KSame, s.Other, world.LateDNS} {
 			for _, tgt := range [][]byte{s.Same, s.Other} {
 				u.N.Exec(node.Call{Func: FSetName, Caller: caller, Recipient: tgt, Args: [][]byte{[]byte("name-" + fmt.Sprint(len(caller)))}, Gas: gen.BigGas})
 				drain(u.N)
@@ -1317,7 +1317,7 @@ func c08Routes(c *harness.Ctx) {
 		}
 	}
 	// a credit into an account holding a different hash under the same (token, nonce): rejected
-	for k := 0; k < 40; k++ {
+	for k := 0; k < 56; k++ {
 		if !mine(c, k) {
 			continue
 		}
@@ -1341,8 +1341,21 @@ func c08Routes(c *harness.Ctx) {
 				continue
 			}
 			tok.Meta.Hash = real[:len(real)-1]
-		default:
+		case 4:
 			tok.Meta.Hash = append(real, 0)
+		case 5:
+			// the same letters in the other case (hashes are bytes, not text)
+			tok.Meta.Hash = bytes.ToUpper(real)
+		default:
+			// both hashes binary: the real one is replaced in the sender's entry too, the
+			// destination's differs from it only in bytes that are not valid UTF-8
+			binHash := []byte{0x01, 0xde, 0xad, 0xbe, 0xef, 'x'}
+			srcTok, _ := decodeTok(src)
+			srcTok.Meta.Hash = binHash
+			u.W.Account(s.A).Poke([]byte(node.StorageKey(s.SFT, 1)), encodeTok(srcTok))
+			s.M.S.Meta[akey{string(s.A), node.StorageKey(s.SFT, 1)}] = srcTok.Meta.Clone()
+			real = binHash
+			tok.Meta.Hash = []byte{0x01, 0xde, 0xad, 0xbf, 0xee, 'x'}
 		}
 		if bytes.Equal(tok.Meta.Hash, real) {
 			continue
@@ -1680,6 +1693,14 @@ func c09MetaNode(c *harness.Ctx) {
 				gen.MultiCall(m1, dst, []gen.Item{{ID: tokF, Nonce: 0, Qty: big.NewInt(1)}}, gen.BigGas, ex...),
 				gen.MultiCall(m1, dst, []gen.Item{{ID: tokS, Nonce: 1, Qty: big.NewInt(1)}, {ID: tokF, Nonce: 0, Qty: big.NewInt(1)}}, gen.BigGas, ex...),
 				gen.TransferCall(m1, dst, tokF, big.NewInt(1), gen.BigGas, ex...),
+			}
+			// the arrival leg of an ESDTTransfer addressed to a metachain address, executed by the
+			// metachain node itself (no sender account): refused like the sender leg
+			if dl := n.ExecAt(0, gen.TransferCall(gen.UserAddr(3, 0), dst, tokF, big.NewInt(1), gen.BigGas, ex...)); dl != nil {
+				if dl.OK {
+					m.viol("C09", "metachain-destination:ESDTTransfer:dst", "the arrival leg of an ESDTTransfer addressed to the metachain succeeded on the metachain node", dl)
+				}
+				m.C09rejected(dl, "metachain-node-arrival")
 			}
 			for _, call := range calls {
 				l := n.ExecSenderAt(0, call, true)
